@@ -247,6 +247,35 @@ def accessor_calls(run, cases, only=None):
                             raise
                         out = ('raise', type(ex).__name__, [c.__name__ for c in type(ex).__mro__])
                 run.check(out[0] == 'raise', f'C14.no-unreal-data[{name}]', case, readcalls.describe(out)[:120], 'an exception: there is no such line / sample')
+        # the xarray backend addressed by position without a coordinate index in front of it: a position at or beyond the extent
+        for fi, fc in enumerate(cases):
+            F = fc.F
+            if F['dim'] != 3 or only is not None or F['mask'] or max(F['n']) > 400:
+                continue
+            try:
+                import xarray as xr
+                with env.quiet():
+                    ds = xr.open_dataset(fc.path, engine=__import__('seismic_zfp.sgz_xarray', fromlist=['x']).SeismicZfpBackendEntrypoint)
+            except BaseException as ex:
+                if isinstance(ex, (KeyboardInterrupt, SystemExit, MemoryError)):
+                    raise
+                run.drift(f'{fc.label}: the xarray backend does not open the file: {type(ex).__name__}')
+                continue
+            ni, nx, nz = F['n']
+            var = ds.variables['data']
+            for j, key in enumerate(((ni, 0, 0), (0, nx, 0), (0, 0, nz), (ni + 3, slice(0, 2), slice(0, 2)), (slice(0, 2), nx + 1, 0), (0, slice(0, 2), nz + 5))):
+                case = {'file': fc.label, 'op': 'xarray.variable[position beyond the extent]', 'args': [j]}
+                run.case(case)
+                with env.quiet():
+                    try:
+                        v = np.asarray(var[key].values)
+                        out = ('value', v)
+                    except BaseException as ex:
+                        if isinstance(ex, (KeyboardInterrupt, SystemExit, MemoryError)):
+                            raise
+                        out = ('raise', type(ex).__name__, [c.__name__ for c in type(ex).__mro__])
+                run.check(out[0] == 'raise', 'C14.no-unreal-data[xarray.variable]', case, readcalls.describe(out)[:120], 'an exception: no such position')
+            ds.close()
     finally:
         for e in emus.values():
             with env.quiet():
@@ -266,8 +295,8 @@ def replay(run, rep):
         cases = [c for c in session.load_files(crafted_files(run, 'thorough') + crafted_2d(run, 'thorough'), run)
                  if c.label == case['file']]
     fc = cases[0]
-    if case['op'].startswith('emu.'):
-        if 'between coordinates' in case['op']:
+    if case['op'].startswith('emu.') or case['op'].startswith('xarray'):
+        if 'between coordinates' in case['op'] or case['op'].startswith('xarray'):
             accessor_calls(run, [fc])          # (the whole accessor pass of that file: the probes are built from its axes)
         else:
             accessor_calls(run, [fc], only=(fc.label, case['op'][4:], case['args'][0]))
